@@ -189,7 +189,12 @@ func (n *node) tryDuplicatedTail(b *types.Block) {
 	}
 	out.Stat("node_duptail_blocks_same_txhash", 1)
 	before := n.mock.GetBlockChain().GetBlockHeight()
-	main, err := n.deliver(d)
+	var main bool
+	var err error
+	if gen.Guard(func() string { main, err = n.deliver(d); return "" }) == "panic" {
+		out.Pred("C18|ProcessBlock|panic-on-duplicated-tail-block", fmt.Sprintf("height=%d txs=%d repeated=%d", b.Height, cnt, k))
+		return
+	}
 	after := n.mock.GetBlockChain().GetBlockHeight()
 	if err == nil || main || after != before {
 		out.Pred("C18|ProcessBlock|duplicated-tail-block-accepted", fmt.Sprintf("height=%d txs=%d repeated=%d main=%v err=%v", b.Height, cnt, k, main, err))
